@@ -23,7 +23,7 @@ def main():
         hc = httpx.AsyncClient(transport=httpx.MockTransport(handler))
     else:
         hc = httpx.Client(transport=httpx.MockTransport(handler))
-    client = pkg.Client(url="http://x", http_client=hc)
+    client = getattr(pkg, P.get("client_name") or "Client")(url="http://x", http_client=hc)
     methods = {m.replace("_", "").lower(): m for m in dir(client) if not m.startswith("_")}
     out = {}
     for name in P["ops"]:
